@@ -26,7 +26,8 @@ CHECKS = {
     'C02': (MC, "same explicit-state search; value / reward alphabet; conservation invariant on every stored block",
             TREE + "candidates: reward = bound, +1, -1, split, absent fees, wrap-around values, out-of-range and overspending "
             "outputs, every malformed shape of the reward transaction. accept => reference-valid; unspent total at every stored "
-            "block <= parent's + subsidy and <= cumulative schedule, from the implementation's own unspent sets.",
+            "block <= parent's + subsidy and <= cumulative schedule, from the implementation's own unspent sets. A third universe has the "
+            "subsidy halving interval rebound to 3 blocks so that explored chains cross two halvings.",
             "Reference subsidy formula is the check's own; halving heights are out of reach (composition with C16).",
             "DESIGN.md section 4, C02"),
     'C03': (MC, "explicit-state search over block trees x arrival orders, both add paths; reference replay-from-genesis in "
@@ -34,7 +35,9 @@ CHECKS = {
             TREE + "every kept history is driven through add_block and add_block_no_validation; at every stored block the "
             "unspent set and per-key balances (value and exact reference list) are compared with a replay of that block's own "
             "ancestors; a second arrival order of the same set must give the same per-block views; every intermediate snapshot "
-            "is re-fingerprinted after later adds.",
+            "is re-fingerprinted after later adds. Four build modes: validated / unvalidated entry point, without and with balance "
+            "look-ups (at the head / at every block) between arrivals, so that on-demand caches are hot when the next block "
+            "arrives; a second payload menu pays never-seen keys twice in one transaction / reward.",
             "De-duplication on (stored set, head) assumes the state is a function of those; that is exactly what the per-block "
             "comparison and the order differential test for the kept representatives.", "DESIGN.md section 4, C03"),
     'C04': (MC, "exhaustive enumeration of all n! parent-choice sequences; reference fork choice in lock-step",
@@ -49,7 +52,9 @@ CHECKS = {
             "(PoW, wrong/stale/off-by-one targets, heights, reward height, time rules at the exact thresholds, every evidence "
             "field, evidence of other parent/nonce/tx list), each re-mined so only the intended rule is broken; the node's own "
             "construct_block_for_mining output must be accepted at 5 clock offsets in every state; 9,192-case grid of "
-            "calculate_new_target with the real constants; thorough adds a 10,080-block chain forked across the real boundary.",
+            "calculate_new_target with the real constants; 48 two-branch histories whose fork lies before a boundary and whose "
+            "branches both reach the next one (state-dependent candidate: target derived from the head's chain); thorough adds "
+            "a 10,080-block chain forked across the real boundary.",
             "Targets are enumerated at every power-of-two boundary, not all 2^256 values.", "DESIGN.md section 4, C05"),
     'C06': (FE, "exhaustive fault enumeration: every single-bit flip and every truncation of every block of a set, on an "
                 "easy-target universe where proof-of-work luck cannot mask anything",
@@ -72,7 +77,8 @@ CHECKS = {
             "reward transaction, spends that differ between forks, multi-input/multi-output) up to 3 (quick) / 4 blocks beyond "
             "a 2-block prefix, under every composition of the writes into flush batches; after every flush a new BlockStore on "
             "the same file and read_chain_from_disk: same ids, byte-identical blocks, parent before child, rebuilt unspent set "
-            "at every block and head height equal to the pre-restart ones. One recorded defect (shared transaction across "
+            "at every block and head height equal to the pre-restart ones; plus a 201-block chain carrying reward data of every "
+            "length 0..200 under three batchings. One recorded defect (shared transaction across "
             "stored blocks) is reported as KNOWN-FINDING; anything else is a VIOLATION.",
             "Clean restart only (no SQLite crash consistency); blocks are assembled without the nonce search because the store "
             "never looks at proof of work.", "DESIGN.md section 4, C08"),
@@ -90,9 +96,11 @@ CHECKS = {
     'C10': (MC, "stateless exploration of 2-3 real nodes under a scheduler that owns deliveries, accepts, timer steps, clock and "
                 "the fetch-peer choice: exhaustive DFS with canonical-state de-duplication (small 2-node configurations) and "
                 "iterative deviation bounding from a round-robin default (all configurations), each execution completed fairly",
-            "29 (33) configurations: chain pairs equal / ahead by 1, 3, 7 (up to 3 inventory batches, batch seam 3) / one at "
+            "37 (40) configurations: chain pairs equal / ahead by 1, 3, 7 (up to 3 inventory batches, batch seam 3) / one at "
             "genesis / forks at depth 2, 12, 17 (16, 25) with longer or equal branches, who dials whom, both dialling; 3-node "
-            "line, star and triangle with the longest chain at each position. Quick: all schedules with <= 1 deviation (one "
+            "line, star and triangle with the longest chain at each position; 3-node lines with a fork deeper than the locator's "
+            "dense range, a late joiner with a longer chain (second phase after the first quiescence), a non-listening node "
+            "(single connection between neighbours). Quick: all schedules with <= 1 deviation (one "
             "configuration: 2) in the first 40 steps + exhaustive DFS (<= 2 ticks per node, no clock advance) of the 12 small "
             "configurations; thorough: <= 2 (selected 3) deviations and DFS with a clock advance. Every execution is completed "
             "fairly (advance 61 s, tick every node with the fetch-peer choice rotated, deliver everything; until ledgers are "
@@ -114,7 +122,8 @@ CHECKS = {
                 "MinerWatcher handlers in the role of the miner process",
             "For every ledger state of a block-tree search (depth 2 / 3, forks, head on either branch), every compatible pool "
             "subset of size <= 3 (fees 0, 3, 1000, 10^8; 1- and 2-input), clock - head time in {-30,-29,-1,0,1,120} and "
-            "{nothing, competing block arrives, pool gains a transaction} between work request and result: the found block "
+            "{nothing, competing block with a time inside (clock, clock+30] arrives, pool gains a transaction} injected after "
+            "work request 0 or 1 or after result 0 (root target 2^255, so runs contain losing nonces): the found block "
             "passes the node's add_block on the state served at request time and the reference validator, pays exactly subsidy "
             "+ fees to the handed-out key, is later than its parent; afterwards the served chain state contains it (as head if "
             "it extends the served head), the store has it, every greeted peer got it exactly once. The clock = head-30 corner "
@@ -138,7 +147,8 @@ CHECKS = {
             "a BFS over (head, record of used outputs, outputs used by successful spends), offering every amount 1..total+1 x "
             "fee 0..2 at every state, with and without confirming the returned transaction in a block: a returned transaction "
             "must pass the node's and the reference validation, pay exactly, give exactly the change, use only unused wallet "
-            "outputs; a failure must leave the record unchanged and happen only when unused outputs do not suffice.",
+            "outputs; a failure must leave the record unchanged and happen only when unused outputs do not suffice. 24 (40) worlds are "
+            "explored to 5 (6) operations with a reduced amount alphabet and confirmation of ANY pending spend as its own operation.",
             "Greedy selection order is whatever the wallet does; only the stated outcome is checked.", "DESIGN.md section 4, C14"),
     'C15': (MC, "explicit-state search over wallet operation sequences with a reference wallet in lock-step; crash-point "
                 "enumeration of every save (snapshot at every raw write / close / rename)",
@@ -158,20 +168,24 @@ CHECKS = {
     'C18': (EX, "exhaustive enumeration of all 327 checkpoints x id variants x both entry points; recorded blocks re-validated "
                 "with real scrypt",
             "Every checkpoint height with wrong id / right id / neighbouring checkpoint's id through validate_block_in_coinstate "
-            "and CoinState.add_block; horizon-1/0/+1; table pinned by digest; genesis + 5 recorded blocks keep id and bytes and "
-            "pass full validation with the real scrypt (horizon lowered), and the check's reference validator agrees on them.",
+            "and CoinState.add_block, on a node with genesis only, with its head far above all checkpoints, and with its head at "
+            "1234; horizon-1/0/+1; table pinned by digest; genesis + 5 recorded blocks keep id and bytes and "
+            "pass full validation with the real scrypt (horizon lowered), also when a competing block at height 1 arrived first, "
+            "and the check's reference validator agrees on them.",
             "Only six recorded real blocks exist offline.", "DESIGN.md section 4, C18"),
     'C16': (EX, "exhaustive enumeration of the whole input domain (every height) against a closed-form reference",
             "Complete enumeration: get_block_subsidy is evaluated at every one of the 33.6 million heights up to one "
             "full era past exhaustion and at every era boundary up to 2^32-1 and beyond, compared with the closed-form "
-            "schedule, checked for monotonicity, summed (= documented maximum) and compared with docs/params.md. "
+            "schedule, checked for monotonicity, summed (= documented maximum) and compared with docs/params.md; the same heights "
+            "in descending order, every ordered pair of 106 representative heights and every ordered triple of era starts "
+            "(the answer must not depend on earlier calls). "
             "Nothing is sampled, so the verdict is a statement about all inputs.",
             "Trusts the closed-form schedule written in the check (10^9 >> (h // 1,050,000)) and the regexes that read "
             "docs/params.md.", "DESIGN.md section 4, C16"),
     'C19': (MC, "explicit-state search over network-manager event sequences on one real node with a back-off monitor in "
                 "lock-step; exhaustive back-off table; crash-point enumeration of every peer-file rewrite",
             "BFS to depth 5 (6) from six initial peer books (empty, one, two hosts, two ports, and two non-initial ones with 2 / 3 "
-            "prior failures) over ticks (+0,9,10,11,20,40,1800 s), dials established / refused, incoming connections (also "
+            "prior failures) and to depth 3 (4) from two states reached by an event prefix (two greeted connections) over ticks (+0,9,10,11,20,40,1800 s), dials established / refused, incoming connections (also "
             "duplicate keys), greetings (claimed port, own / other nonce, repeated), peers messages (incl. IPv6-only), remote "
             "close, garbage, OS error, <= 3 open connections, give-up seam 3: no key in both maps, nothing escapes the loop, "
             "every dial satisfies the back-off monitor and the give-up bound, self-connections are dropped, recorded and never "
@@ -187,7 +201,8 @@ CHECKS = {
             "Mutants of a transcript containing one valid instance of every message type: every byte position x {00,01,7f,80,ff,"
             "b^01,b^80} (quick: 4 values), every truncation + close, truncation at field boundaries + next message, deletion / "
             "duplication / isolation / transposition of messages, field-boundary splices, every message and data type value "
-            "0000..00ff, boundary length fields, huge / non-canonical list counts, magic bytes, seeded random supplement. Oracle: "
+            "0000..00ff, boundary length fields, huge / non-canonical list counts, magic bytes, crafted rule-breaking blocks and "
+            "transactions (the C01/C02/C05 alphabets, a block stating a height far beyond its chain), seeded random supplement. Oracle: "
             "nothing escapes the event handling; the victim's peer object, socket, registration, flags and receive buffer are "
             "untouched and its pending frame still completes; chain state / pool / store change only by the transcript's "
             "reference-valid block / transaction.",
